@@ -211,11 +211,13 @@ class MergeIndexMap(Contract):
 
 
 def contracts():
-    from contracts import C12_support, C12_bases
-    return [MergeIndexMap(True), MergeIndexMap(False)] + C12_support.contracts() + C12_bases.contracts()
+    from contracts import C12_support, C12_bases, C12_inverse, C12_ctor, C12_tables
+    return [MergeIndexMap(True), MergeIndexMap(False)] + C12_support.contracts() + C12_bases.contracts() + C12_inverse.contracts() + C12_ctor.contracts() + C12_tables.contracts()
 
 
-from contracts.C12_support import PARKED  # noqa: E402  (documented _int_or_vec clause that fails on the unchanged tree: candidate defect)
+from contracts.C12_support import PARKED as _PARKED_SUPPORT  # noqa: E402  (empty since the _int_or_vec repair)
+from contracts.C12_tables import PARKED as _PARKED_TABLES  # noqa: E402  (_basis_c0_structured, two elements across a periodic direction: candidate defect D3, notes/C12-c12b.md)
+PARKED = list(_PARKED_SUPPORT) + list(_PARKED_TABLES)
 
 TRUSTED = ['pyvc symbolic executor and its Python model (DESIGN 2.3), loop rule (init / preserve / use, havoc of assigned names)',
            'numpy externals: arange, integer-array store (Skolem witness form); min() of a list as an attained lower bound',
@@ -228,22 +230,43 @@ TRUSTED = ['pyvc symbolic executor and its Python model (DESIGN 2.3), loop rule 
            'and +,*,% on integer nodes; insertaxis/PolyMul/ravel on coefficient tables only track WHICH stored rows are combined (row identities), not polynomial values',
            'evaluable.compile/eval deliver the denotation of the node DAG (that is C02, not checked here): get_dofs(e)/get_coefficients(e) = f_dofs_coeffs(index) evaluated at index = e',
            'L-DIVMOD ground instances (divmod(q*n + r, n) = (q, r), 0 <= r < n) for the row-major element digits of StructuredBasis; L-MONO for the DiscontBasis offsets',
-           'numeric.normdim is executed from its real source inside _int_or_vec / DiscontBasis.get_support; numeric.isintarray/isboolarray are dtype tests']
+           'numeric.normdim is executed from its real source inside _int_or_vec / DiscontBasis.get_support; numeric.isintarray/isboolarray are dtype tests',
+           'second round (contracts/C12_inverse.py, cross-checked by native/axioms.py:run_c12b): numpy.searchsorted with an ARRAY of values (elementwise insertion points); arr[mask] keeps the '
+           'selected entries in order (strictly increasing position function onto the True positions); numpy.concatenate(list of 1-D arrays) as an element-set axiom (sound, order/multiplicity '
+           'unspecified) raising ValueError for an empty list; numpy.arange(a, b); numpy.diff; functools.reduce(numpy.add.outer, axes).ravel() in row-major MULTI-INDEX form (a flat position is the '
+           'row-major rank of its multi-index, as in evalsem.py); functools.reduce over a concrete-length list as the left fold; numpy results (fancy takes, elementwise results, comparisons, copies) are '
+           'SNAPSHOTS of their operands (pyvc/nparr.py:Vec.frozen_sel)',
+           'StructuredBasis.get_support: the periodic images x_0 = d_i, x_{t+1} = x_t + N_i are a specification-level sequence (non-decreasing by L-MONO); L-DIVMOD for the dof digits '
+           '(divmod(q*n + r, n) = (q, r)), existence of mixed-radix digits and 0 <= mixed-radix number < prod N_i; bridge to the f_dofs_coeffs contract: (start + p) mod N == d  <=>  start + p == x_t '
+           'for some t >= 0 (L-DIVMOD; needs 0 <= start); ghost position function of the appended aranges (specification only); VecList (list of int arrays grown by append)',
+           'PrunedBasis.get_support / PrunedBasis.__init__: the parent\'s get_support / get_dofs(int array) are used BY CONTRACT (Basis._computed_support, _int_or_vec#intarray: proved above); '
+           'numeric.sorted_index, _sorted_index_mask, numeric.invmap are executed in line from their real sources',
+           'constructors: super().__init__ (Basis.__init__) is an external that records (ndofs, nelems, index, coords); types.arraydata / types.frozenarray / numpy.asarray / evaluable.constant return '
+           'their argument; all(<generator>) over a symbolic-length sequence is the universally quantified element condition; zip of two symbolic sequences has the shorter length; '
+           'L-MONO-GAP (lemmas/LMono.lean) turns the adjacent test of MaskedBasis.__init__ into global strict monotonicity; util.product of a concrete tuple is the product',
+           'contracts/C12_tables.py: native enumeration harness native/c12d.py (float evaluation of the real coefficient tables by nutils_poly with threshold 1e-9; node positions of structured '
+           'elements = element multi-index + local lattice point; the independent statement of the spline dof numbering and of the multiplicity-expanded knot vectors in _spline_expected/_expanded_knots)']
 ASSUMPTIONS = ['every index in a merge set lies in [0, nin) and every merge set is non-empty (documented)', 'numpy int64 as mathematical integers',
                '_computed_support: get_dofs(e) is a 1-D int array with entries in [0, ndofs) for 0 <= e < nelems (class invariant of Basis, NOT checked by any constructor; repetitions and any order allowed)',
                '_int_or_vec: nargs >= 0; f is a total function from indices to 1-D int arrays; "+sorted-f": f returns strictly increasing arrays (true for get_support: proved for _computed_support)',
                'f_dofs_coeffs: 0 <= index < nelems (Basis.__init__ wraps the argument in InRange)',
-               'PlainBasis: len(_dofs) == len(_coeffs) and equally many rows per element (asserted by PlainBasis.__init__; the constructor itself is not under contract); dofs in range is NOT checked by the constructor',
-               'DiscontBasis: _offsets == cumsum([0] + rows per element), ndofs == _offsets[-1] (as computed by __init__ with numpy.cumsum; constructor not under contract)',
-               'MaskedBasis: _indices strictly increasing within [0, parent.ndofs) (checked by __init__, ValueError otherwise), _renumber == invmap(_indices, parent.ndofs, missing=ndofs) (numeric.invmap is under contract), parent dofs in range',
-               'PrunedBasis: _dofmap strictly increasing, contains every dof of every selected parent element, _renumber == invmap(_dofmap): follows from the _int_or_vec contract ONLY when transmap has at least '
-               'two distinct entries or the parent dofs are sorted and unique -- otherwise NOT established (candidate defect, notes/C12-basis.md)',
-               'StructuredBasis: transforms_shape[i] >= 1, dofs_shape[i] >= 1, _ndofs[i] >= 0, rows of _coeffs[i][e] == _ndofs[i][e]; the element index is given by its row-major digits',
+               'PlainBasis: len(_dofs) == len(_coeffs) and equally many rows per element: ESTABLISHED by PlainBasis.__init__ (now under contract); dofs in [0, ndofs) is NOT checked by the constructor and stays an assumption on its callers',
+               'DiscontBasis: _offsets == cumsum([0] + rows per element), ndofs == _offsets[-1]: ESTABLISHED by DiscontBasis.__init__ (now under contract)',
+               'MaskedBasis: _indices strictly increasing within [0, parent.ndofs), _renumber == invmap(_indices, parent.ndofs, missing=ndofs): ESTABLISHED by MaskedBasis.__init__ (now under contract; ValueError otherwise); still assumed: parent dofs in range, len(parent) == parent.ndofs',
+               'PrunedBasis: _dofmap strictly increasing, contains exactly the dofs of the selected parent elements, _renumber == invmap(_dofmap): ESTABLISHED by PrunedBasis.__init__ (now under contract, using the '
+               'repaired _int_or_vec contract); still assumed: transmap entries in [0, parent.nelems), and for get_support transmap strictly increasing (call site SubsetTopology._indices; NOT checked by the constructor), parent dofs in range',
+               'StructuredBasis: transforms_shape[i] >= 1, dofs_shape[i] >= 1, _ndofs[i] >= 0, rows of _coeffs[i][e] == _ndofs[i][e]; the element index is given by its row-major digits; '
+               '_ndofs == stop - start, ndofs == prod dofs_shape, nelems == prod transforms_shape: ESTABLISHED by StructuredBasis.__init__ (now under contract, start/stop of equal length per axis assumed)',
+               'StructuredBasis.get_support: per axis start_dofs and stop_dofs non-decreasing, len == transforms_shape[i] >= 1, stop_dofs[-1] >= dofs_shape[i] >= 1 (as built by _basis_spline: offsets = cumsum(m) - m[0], '
+               'stop = offsets + p + 1; checked on the bounded spline family of C12_tables, otherwise ASSUMED; the constructor checks none of it); for the bridge to get_dofs additionally 0 <= start_dofs',
+               'numeric.sorted_index / sorted_contains: sorted_array 1-D int non-decreasing, values 1-D int',
                'numeric.invmap: indices in [0, length) and pairwise distinct (documented precondition)']
 NOT_COVERED = ['partition of unity, continuity across interfaces, polynomial VALUES of coefficient tables (PolyMul etc. are tracked as row identities only): numeric, outside',
                'surjectivity of the condensed labels onto range(count)',
                'Basis.get_support one-line body (self._computed_support[dof]); get_ndofs/get_coefficients (normdim + compiled evaluable); __getitem__ dispatch',
-               'StructuredBasis.get_support (while loop over periodic images, searchsorted, concatenate, add.outer: needs n-d array semantics) -- NOT under contract; StructuredBasis beyond 3 axes',
-               'PrunedBasis.get_support (numeric.sorted_index), LegendreBasis, _DiscontinuousPartitionBasis; the constructors of Plain/Discont/Masked/Pruned/StructuredBasis (class invariants are ASSUMED as listed)',
-               'topology._basis_c0_structured / basis_std call of merge_index_map, element.get_edge_dofs, StructuredTopology._basis_spline dof numbering (periodic wrap-around): not reached in this round',
+               'StructuredBasis.get_support beyond 2 axes and for array / mask arguments (the _int_or_vec contract covers the dispatch); StructuredBasis.f_dofs_coeffs beyond 3 axes',
+               'PrunedBasis.get_support / MaskedBasis.get_support for array arguments; LegendreBasis, _DiscontinuousPartitionBasis; Basis.__init__ itself (compiles f_dofs_coeffs); the slice branch of Basis.__getitem__',
+               '_basis_c0_structured, get_edge_dofs, _basis_spline are covered by BOUNDED native enumeration only (contracts/C12_tables.py): unstructured / simplex / mixed topologies, degree > 3, more than 4 elements per axis, '
+               'non-integer knot values, tensor-product splines (per-axis code is shared), spline coefficient VALUES (polynomial pieces) are outside',
+               '_basis_c0_structured with exactly TWO elements across a periodic direction: wrong merge (PARKED contract, candidate defect D3 in notes/C12-c12b.md)',
                'int-array / bool-mask argument with ONE distinct entry to get_dofs: documented strict monotonicity fails (PARKED contracts, candidate defect)']
